@@ -1316,6 +1316,32 @@ func (env *Env) resolveTarget(text string) []modTarget {
 				keys, srts, oid, _ := env.ghostKeys(g, o)
 				return []modTarget{{kind: "ghost", keys: keys, sorts: srts, ref: oid}}
 			}
+			if id.Name == "anyfield" && len(e.Args) == 1 {
+				// anyfield(pkg.Type.f): field f of every object of that type (a callee that reorders a collection and updates
+				// a position field in each element)
+				parts := strings.Split(exprString(e.Args[0]), ".")
+				if len(parts) != 3 {
+					panic(specErr("anyfield wants pkg.Type.field"))
+				}
+				t, err := fc.e.lookupType(parts[0]+"."+parts[1], env.pkg)
+				if err != nil {
+					panic(specErr("%v", err))
+				}
+				path, ft, ok := fieldPath(t, parts[2])
+				if !ok {
+					panic(specErr("anyfield: no field %s in %s", parts[2], t))
+				}
+				pre := ""
+				for _, i := range path {
+					pre += fmt.Sprintf("f%d_", i)
+				}
+				mt := modTarget{kind: "ghostall", ref: "0"}
+				for _, c := range fc.e.comps(ft) {
+					mt.keys = append(mt.keys, fc.e.structKey(t)+"."+pre+c.Suf)
+					mt.sorts = append(mt.sorts, c.Sort)
+				}
+				return []modTarget{mt}
+			}
 			if id.Name == "oncedone" && len(e.Args) == 1 {
 				o := env.withState(env.old, func() V { return env.eval(e.Args[0]) })
 				fc.keySort["ghost:oncedone"] = fieldSort(sBool)
